@@ -242,6 +242,7 @@ static void caseEllSph(const std::string& cls, const std::vector<double>& v) {
     const std::string K = convexContract("ConvexConvex.ellipsoid_sphere." + cls, pc, e1, e2, g, L);
     // exact geometry is available for this pair: distance from the sphere centre to the ellipsoid
     Vec3 cE = ~X1 * c, nearE;
+    if (!(cE[0] != 0 && cE[1] != 0 && cE[2] != 0)) vh::D("p.col.ell_sph.exact_reference_skipped");
     if (cE[0] != 0 && cE[1] != 0 && cE[2] != 0) {
         double sd = ellPointDistance(a, cE, nearE), sep = r - sd;    // overlap amount
         if (std::abs(sep) > 1e-7 * L) vh::P("contact_iff_overlap_exact", K + ".contact_iff_overlap_exact", (pc.hit == (sep > 0)) ? 0 : 1, 0);
@@ -316,6 +317,108 @@ static void caseMesh(const std::string& cls, const std::vector<double>& v) {
     std::vector<int> diff; std::set_symmetric_difference(ref.begin(), ref.end(), got.begin(), got.end(), std::back_inserter(diff));
     vh::P("faces_match_bruteforce", K + ".faces", (double)diff.size(), 0);
     vh::P("contact_iff_overlap", K + ".contact_iff_overlap", (hit == !ref.empty()) ? 0 : 1, 0);
+    // the contact object: roles, relative transform ~X1*XM, no faces attributed to the non-mesh surface; common rigid
+    // motion and the other add order (through the real subsystem) leave the face set unchanged
+    {
+        std::unique_ptr<ContactGeometry> g1; if (r == 0) g1.reset(new ContactGeometry::HalfSpace()); else g1.reset(new ContactGeometry::Sphere(r));
+        Array_<Contact> cs; CollisionDetectionAlgorithm::getAlgorithm(g1->getTypeId(), mesh.getTypeId())->processObjects(ContactSurfaceIndex(0), *g1, X1, ContactSurfaceIndex(1), mesh, XM, cs);
+        if (cs.size() == 1 && TriangleMeshContact::isInstance(cs[0])) {
+            const TriangleMeshContact& tc = static_cast<const TriangleMeshContact&>(cs[0]); Transform T = ~X1 * XM;
+            double et = std::max((tc.getTransform().p() - T.p()).norm(), (tc.getTransform().R().asMat33() - T.R().asMat33()).norm());
+            vh::P("mesh_contact_object", K + ".contact_object", ((int)tc.getSurface1() == 0 && (int)tc.getSurface2() == 1 && tc.getSurface1Faces().empty()) ? et : 1, 1e-12);
+        }
+        vh::Rng gm2((uint64_t)v[1] ^ 977); Transform G(rndRot(gm2), rndVec(gm2, 0.1, 2)); Array_<Contact> cg;
+        CollisionDetectionAlgorithm::getAlgorithm(g1->getTypeId(), mesh.getTypeId())->processObjects(ContactSurfaceIndex(0), *g1, G * X1, ContactSurfaceIndex(1), mesh, G * XM, cg);
+        std::set<int> gotG; if (cg.size() == 1) gotG = static_cast<const TriangleMeshContact&>(cg[0]).getSurface2Faces();
+        // faces within 1e-9 of the decision boundary may legitimately flip under a rigid motion: compare with the band-free reference
+        vh::P("mesh_rigid_motion", K + ".rigid_motion", gotG == ref ? 0 : 1, 0);
+        Array_<Contact> sw = viaSubsystemRaw(mesh, XM, *g1, X1); std::set<int> gotS; int meshIdx = -1;
+        if (sw.size() == 1 && TriangleMeshContact::isInstance(sw[0])) { const TriangleMeshContact& tc = static_cast<const TriangleMeshContact&>(sw[0]); gotS = tc.getSurface2Faces(); meshIdx = tc.getSurface2(); }
+        vh::P("mesh_subsystem_swap", K + ".subsystem_swap", (gotS == ref && (ref.empty() || meshIdx == 0)) ? 0 : 1, 0);
+    }
+}
+
+
+// ================================================================================================ ContactTrackerSubsystem path
+// (the path CompliantContactSubsystem uses): ContactTracker::{HalfSpaceSphere, SphereSphere, HalfSpaceEllipsoid, HalfSpaceBrick}
+// through the real subsystem, surface A on Ground and surface B on a body welded to Ground, and in the other placement.
+struct TC { bool hit = false; int s1 = -1, s2 = -1; double depth = NaN; Vec3 normalG{NaN}, originG{NaN}; int lowest = -1; int count = 0; std::string type; };
+static TC viaTracker(const ContactGeometry& gGround, const Transform& XGround, const ContactGeometry& gBody, const Transform& XBody) {
+    MultibodySystem system; SimbodyMatterSubsystem matter(system); ContactTrackerSubsystem tracker(system);
+    ContactMaterial mat(1e6, 0.1, 0.5, 0.5, 0.1);
+    matter.Ground().updBody().addContactSurface(XGround, ContactSurface(gGround, mat));
+    Body::Rigid body(MassProperties(1.0, Vec3(0), Inertia(1)));
+    body.addContactSurface(XBody, ContactSurface(gBody, mat));
+    MobilizedBody::Weld w(matter.Ground(), Transform(), body, Transform());
+    State st = system.realizeTopology();
+    system.realize(st, Stage::Position);
+    const ContactSnapshot& snap = tracker.getActiveContacts(st);
+    TC c; c.count = snap.getNumContacts();
+    if (c.count >= 1) {
+        const Contact& k = snap.getContact(0);
+        c.s1 = k.getSurface1(); c.s2 = k.getSurface2();
+        const Transform XS1 = tracker.getMobilizedBody(ContactSurfaceIndex(c.s1)).getBodyTransform(st) * tracker.getContactSurfaceTransform(ContactSurfaceIndex(c.s1));
+        if (CircularPointContact::isInstance(k)) { const CircularPointContact& p = CircularPointContact::getAs(k); c.hit = true; c.type = "circular"; c.depth = p.getDepth(); c.normalG = XS1.R() * Vec3(p.getNormal()); c.originG = XS1 * p.getOrigin(); }
+        else if (EllipticalPointContact::isInstance(k)) { const EllipticalPointContact& p = EllipticalPointContact::getAs(k); c.hit = true; c.type = "elliptical"; c.depth = p.getDepth(); c.normalG = XS1.R() * Vec3(p.getContactFrame().z()); c.originG = XS1 * p.getContactFrame().p(); }
+        else if (BrickHalfSpaceContact::isInstance(k)) { const BrickHalfSpaceContact& p = BrickHalfSpaceContact::getAs(k); c.hit = true; c.type = "brick"; c.depth = p.getDepth(); c.lowest = p.getLowestVertex(); c.normalG = XS1.R() * Vec3(-1, 0, 0); }
+        else c.type = "other";
+    }
+    return c;
+}
+// kind 0 hs/sph, 1 sph/sph, 2 hs/ell, 3 hs/brick ; v: kind XA(12) XB(12) params(3) params2(1)
+static void caseTracker(const std::string& cls, const std::vector<double>& v) {
+    int kind = (int)v[0]; Transform XA = readX(v, 1), XB = readX(v, 13);
+    vh::Line in = vh::I("p.col.tracker"); in.s(cls); for (double x : v) in.d(x); in.emit();
+    std::puts("O p.col.tracker -");
+    std::unique_ptr<ContactGeometry> A, B; double L = 1, sep = NaN; Vec3 nAB(NaN);
+    Vec3 xh = XA.R() * Vec3(1, 0, 0);
+    if (kind == 0) { A.reset(new ContactGeometry::HalfSpace()); B.reset(new ContactGeometry::Sphere(v[25])); L = v[25]; sep = v[25] + ~xh * (XB.p() - XA.p()); nAB = -xh; }
+    else if (kind == 1) { A.reset(new ContactGeometry::Sphere(v[25])); B.reset(new ContactGeometry::Sphere(v[26])); L = std::max(v[25], v[26]); double d = (XB.p() - XA.p()).norm(); sep = v[25] + v[26] - d; nAB = (XB.p() - XA.p()) / d; }
+    else if (kind == 2) { Vec3 a(v[25], v[26], v[27]); A.reset(new ContactGeometry::HalfSpace()); B.reset(new ContactGeometry::Ellipsoid(a)); L = std::max(a[0], std::max(a[1], a[2]));
+        Vec3 dE = ~XB.R() * xh; double w = std::sqrt(dE[0]*dE[0]*a[0]*a[0] + dE[1]*dE[1]*a[1]*a[1] + dE[2]*dE[2]*a[2]*a[2]); sep = ~xh * (XB.p() - XA.p()) + w; nAB = -xh; }
+    else { Vec3 h(v[25], v[26], v[27]); A.reset(new ContactGeometry::HalfSpace()); B.reset(new ContactGeometry::Brick(h)); L = std::max(h[0], std::max(h[1], h[2]));
+        Vec3 dB = ~XB.R() * xh; sep = ~xh * (XB.p() - XA.p()) + std::abs(dB[0]) * h[0] + std::abs(dB[1]) * h[1] + std::abs(dB[2]) * h[2]; nAB = -xh; }
+    static const char* nm[] = {"HalfSpaceSphere", "SphereSphere", "HalfSpaceEllipsoid", "HalfSpaceBrick"};
+    const std::string K = std::string("ContactTracker.") + nm[kind] + "." + cls;
+    TC ab = viaTracker(*A, XA, *B, XB), ba = viaTracker(*B, XB, *A, XA);
+    vh::D(std::string("p.col.tracker.") + nm[kind] + (ab.hit ? ".hit" : ".miss"));
+    const double band = 1e-9 * L;
+    for (int ord = 0; ord < 2; ++ord) {
+        const TC& c = ord ? ba : ab; const std::string Ko = K + (ord ? ".swapped_placement" : ".placement");
+        if (std::abs(sep) > band) vh::P("contact_iff_overlap", Ko + ".contact_iff_overlap", (c.hit == (sep > 0)) ? 0 : 1, 0);
+        if (!c.hit || !(sep > band)) continue;
+        vh::P("single_contact", Ko + ".single_contact", std::abs(c.count - 1), 0);
+        vh::P("depth_exact", Ko + ".depth", std::abs(c.depth - sep) / L, 1e-10);
+        // the normal points from surface 1 to surface 2: orient it from A to B (A is surface 0 in placement, 1 in the swapped one)
+        int idxA = ord ? 1 : 0; Vec3 nFromA = (c.s1 == idxA) ? c.normalG : Vec3(-c.normalG);
+        vh::P("normal_exact", Ko + ".normal", (nFromA - nAB).norm(), 1e-10);
+    }
+    if (ab.hit && ba.hit && kind != 3) vh::P("origin_same_in_both_placements", K + ".origin_swap", (ab.originG - ba.originG).norm() / L, 1e-10);
+    if (ab.hit && ba.hit && kind == 3) vh::P("lowest_vertex_same", K + ".lowest_vertex_swap", ab.lowest == ba.lowest ? 0 : 1, 0);
+}
+// broad phase: several spheres in one contact set; the subsystem must report exactly the overlapping pairs
+static void caseMulti(const std::string& cls, const std::vector<double>& v) {
+    int n = (int)v[0];
+    vh::Line in = vh::I("p.col.multi"); in.s(cls); for (double x : v) in.d(x); in.emit();
+    std::puts("O p.col.multi -");
+    MultibodySystem system; SimbodyMatterSubsystem matter(system); GeneralContactSubsystem contacts(system);
+    ContactSetIndex set = contacts.createContactSet();
+    Body::Rigid body(MassProperties(1.0, Vec3(0), Inertia(1)));
+    std::vector<Vec3> c(n); std::vector<double> r(n);
+    for (int i = 0; i < n; ++i) { c[i] = V(v, 1 + 4*i); r[i] = v[4 + 4*i];
+        // half of the spheres sit on welded bodies with a non-identity body frame, the others on Ground
+        if (i % 2) { Transform XB(Rotation(0.3 * i, UnitVec3(Vec3(1, 2, 3))), Vec3(0.1 * i, -0.2, 0.05)); MobilizedBody::Weld w(matter.Ground(), XB, body, Transform()); contacts.addBody(set, w, ContactGeometry::Sphere(r[i]), Transform(~XB * c[i])); }
+        else contacts.addBody(set, matter.updGround(), ContactGeometry::Sphere(r[i]), Transform(c[i])); }
+    State st = system.realizeTopology(); system.realize(st, Stage::Dynamics);
+    const Array_<Contact>& cs = contacts.getContacts(st, set);
+    std::set<std::pair<int, int> > got, ref; bool band = false; int dup = 0;
+    for (auto& k : cs) { auto pr = std::make_pair(std::min((int)k.getSurface1(), (int)k.getSurface2()), std::max((int)k.getSurface1(), (int)k.getSurface2())); if (!got.insert(pr).second) ++dup; }
+    for (int i = 0; i < n; ++i) for (int j = i + 1; j < n; ++j) { double d = (c[i] - c[j]).norm(); if (std::abs(r[i] + r[j] - d) < 1e-9) band = true; if (d < r[i] + r[j] && d > 0) ref.insert({i, j}); }
+    vh::D("p.col.multi." + cls + ".pairs" + std::to_string((int)ref.size()));
+    if (band) return;
+    std::vector<std::pair<int, int> > diff; std::set_symmetric_difference(ref.begin(), ref.end(), got.begin(), got.end(), std::back_inserter(diff));
+    vh::P("exactly_the_overlapping_pairs", "GeneralContactSubsystem." + cls + ".pair_set", (double)diff.size(), 0);
+    vh::P("no_duplicates", "GeneralContactSubsystem." + cls + ".duplicates", dup, 0);
 }
 
 static void replayLine(const std::string& line);
@@ -366,7 +469,8 @@ static void genEllSph(vh::Rng& g, const std::string& cls) {
     // centre = surface point + outward normal * (r - over)
     double z = g.range(-1, 1), ph = g.range(0, 2*PI), s = std::sqrt(1 - z*z); Vec3 sE(a[0]*s*std::cos(ph), a[1]*s*std::sin(ph), a[2]*z);
     Vec3 nE = Vec3(UnitVec3(Vec3(sE[0]/(a[0]*a[0]), sE[1]/(a[1]*a[1]), sE[2]/(a[2]*a[2]))));
-    double over = g.range(-0.5, 0.5) * std::min(r, std::min(a[0], std::min(a[1], a[2])));
+    // overlap from separated to sphere centre inside the ellipsoid (over > r)
+    double over = (g.below(3) == 0 ? g.range(1.0, 1.6) * r : g.range(-0.5, 0.5) * std::min(r, std::min(a[0], std::min(a[1], a[2]))));
     if (std::abs(over) < 1e-3) over = 0.05;
     std::vector<double> v; pushX(v, X1); push3(v, a); push3(v, X1 * (sE + (r - over) * nE)); v.push_back(r); caseEllSph(cls, v);
 }
@@ -392,15 +496,29 @@ static void genEllEll(vh::Rng& g, const std::string& cls) {
     std::vector<double> v; pushX(v, X1); pushX(v, X2); push3(v, a); push3(v, b); caseEllEll(cls, v);
 }
 static void genMesh(vh::Rng& g, const std::string& cls) {
-    int kind = g.below(3); double mseed = (double)(g.next() % 100000); int sub = 1 + g.below(2);
+    int kind = g.below(4); double mseed = (double)(g.next() % 100000); int sub = 1 + g.below(2);
     Transform XM(rndRot(g), rndVec(g, 0.1, 2));
     bool sphere = g.coin(); double r = sphere ? g.range(0.2, 1.0) : 0.0;
     Transform X1(rndRot(g), XM.p() + g.range(0.2, 1.6) * Vec3(UnitVec3(rndVec(g, 0.1, 1))));
     std::vector<double> v = {(double)kind, mseed, (double)sub}; pushX(v, X1); pushX(v, XM); v.push_back(r); caseMesh(cls, v);
 }
 
+static void genTracker(vh::Rng& g, const std::string& cls) {
+    int kind = g.below(4); Transform XA(rndRot(g), rndVec(g, 0.1, 2)), XB(rndRot(g), rndVec(g, 0.1, 2));
+    double p0 = g.range(0.3, 1.5), p1 = g.range(0.3, 1.5), p2 = g.range(0.3, 1.5);
+    if (kind == 1) XB.updP() = XA.p() + (p0 + p1) * g.range(0.3, 1.3) * Vec3(UnitVec3(rndVec(g, 0.1, 1)));
+    else XB.updP() = XA * Vec3(g.range(-2.0, 0.8), g.range(-2, 2), g.range(-2, 2));
+    std::vector<double> v = {(double)kind}; pushX(v, XA); pushX(v, XB); v.push_back(p0); v.push_back(p1); v.push_back(p2); caseTracker(cls, v);
+}
+static void genMulti(vh::Rng& g, const std::string& cls) {
+    int n = 3 + g.below(5); std::vector<double> v = {(double)n};
+    for (int i = 0; i < n; ++i) { push3(v, rndVec(g, 0.05, 1.6)); v.push_back(g.range(0.2, 0.9)); }
+    caseMulti(cls, v);
+}
 static void generic(vh::Rng& g, long n) {
     for (long it = 0; it < n; ++it) {
+        if (it % 12 == 5) { genTracker(g, "generic"); continue; }
+        if (it % 12 == 11) { genMulti(g, "generic"); continue; }
         switch (g.below(10)) {
         case 0: case 1: genHsSph(g, "generic", 0); break;
         case 2: case 3: genSphSph(g, "generic", 0); break;
@@ -429,6 +547,11 @@ static void degenerate(vh::Rng& g, long n) {
         for (int k = 0; k < 6; ++k) genEllEll(g, "random_placement");
         // sphere / mesh witness of the point-triangle region-6 defect (found by the generic stream at seed 1)
         if (it == 0) { replayLine(REGION6_WITNESS); replayLine(DEEP_WITNESS[0]); replayLine(DEEP_WITNESS[1]); }
+        // ConvexConvex special branches: coincident centres (v0 == 0) and centres on a common axis with aligned frames (v1 % v0 == 0)
+        { std::vector<double> v; pushX(v, Transform()); push3(v, Vec3(1.5, 1, 0.7)); push3(v, Vec3(0)); v.push_back(0.8); caseEllSph("coincident_centres", v); }
+        { std::vector<double> v; pushX(v, Transform()); push3(v, Vec3(1.5, 1, 0.7)); push3(v, Vec3(1.9, 0, 0)); v.push_back(0.8); caseEllSph("axis_aligned", v); }
+        { std::vector<double> v; pushX(v, Transform()); pushX(v, Transform(Vec3(2.0, 0, 0))); push3(v, Vec3(1.5, 1, 0.7)); push3(v, Vec3(0.9, 1.2, 0.6)); caseEllEll("axis_aligned", v); }
+        genTracker(g, "random"); genMulti(g, "random");
         // identity frames
         { std::vector<double> v; pushX(v, Transform()); push3(v, Vec3(-0.5, 0, 0)); v.push_back(1); caseHsSph("identity_frame", v); }
         { std::vector<double> v; pushX(v, Transform()); pushX(v, Transform(Vec3(-0.5, 0, 0))); push3(v, Vec3(1, 2, 3)); caseHsEll("identity_frame", v); }
@@ -445,6 +568,7 @@ static void replayLine(const std::string& line) {
         else if (fn == "col.hs_ell") caseHsEll(cls, v); else if (fn == "col.detect") caseDetect(cls, v);
         else if (fn == "p.col.ell_sph") caseEllSph(cls, v); else if (fn == "p.col.ell_ell") caseEllEll(cls, v);
         else if (fn == "p.col.mesh") caseMesh(cls, v);
+        else if (fn == "p.col.tracker") caseTracker(cls, v); else if (fn == "p.col.multi") caseMulti(cls, v);
     }
 }
 static void replay() {
